@@ -321,6 +321,9 @@ func (fr *Frame) callWithSpec(callee *ssa.Function, spec *FuncSpec, args []Val, 
 		post.vars["result"] = cvOf(resVals[0])
 	}
 	for _, c := range spec.Ensures {
+		if !spec.Extern && !fx.eng.useClause(c) {
+			continue
+		}
 		t := post.eval(c.E).asBool()
 		fx.assume(st.guard, t)
 	}
@@ -394,8 +397,21 @@ func paramNames(callee *ssa.Function, spec *FuncSpec) []string {
 // havocLocation forgets the contents of a location named in a modifies
 // clause: "*p", "p.f", "elems(p)".
 func (fr *Frame) havocLocation(env *Env, loc string, st *State, who string) {
-	if strings.TrimSpace(loc) == "nothing" {
+	loc = strings.TrimSpace(loc)
+	if loc == "nothing" {
 		return
+	}
+	if strings.HasPrefix(loc, "*") {
+		inner, err := parseExpr(loc[1:])
+		if err != nil {
+			unsupp("modifies clause of %s: %v", who, err)
+		}
+		cv := env.eval(inner)
+		if cv.k == cvVal && cv.v.sh.kind == KPtr {
+			fr.havocPointee(cv.v, st)
+			return
+		}
+		unsupp("modifies clause %q of %s: not a pointer", loc, who)
 	}
 	e, err := parseExpr(loc)
 	if err != nil {
@@ -516,11 +532,79 @@ func (fr *Frame) invoke(recv Val, m *types.Func, args []Val, st *State, pos toke
 		}
 	}
 	key := "iface:" + iname + "." + m.Name()
-	if spec, ok := fx.eng.contracts.Funcs[key]; ok {
+	spec := fx.eng.contracts.Funcs[key]
+	// closed-world dispatch over the in-module dynamic types known so far;
+	// every other dynamic type is covered by the interface-method contract
+	type cand struct {
+		ty types.Type
+		fn *ssa.Function
+	}
+	var cands []cand
+	for _, ty := range fx.eng.tids.typs {
+		if !typeInModule(ty) {
+			continue
+		}
+		sel := fx.eng.prog.MethodSets.MethodSet(ty).Lookup(m.Pkg(), m.Name())
+		if sel == nil {
+			continue
+		}
+		if fn := fx.eng.prog.MethodValue(sel); fn != nil {
+			cands = append(cands, cand{ty, fn})
+		}
+	}
+	if len(cands) == 0 {
+		if spec == nil {
+			unsupp("interface method call %s without a contract", key)
+		}
 		return fr.callIfaceSpec(spec, key, iname, recv, m, args, st, pos)
 	}
-	unsupp("interface method call %s without a contract", key)
-	return nil
+	var outs []edgeState
+	var results []*Val
+	var conds []T
+	var matched []T
+	for _, c := range cands {
+		id := num(int64(fx.eng.tids.id(c.ty)))
+		s := st.clone()
+		s.guard = fx.defineBool("dyn", and(st.guard, eq(recv.ifTyp(), id)))
+		matched = append(matched, eq(recv.ifTyp(), id))
+		rv := fr.unbox(s, recv, c.ty)
+		r := fr.callFunction(c.fn, append([]Val{rv}, args...), nil, s, pos, instr)
+		outs = append(outs, edgeState{cond: s.guard, st: s})
+		results = append(results, r)
+		conds = append(conds, s.guard)
+	}
+	rest := st.clone()
+	rest.guard = fx.defineBool("dynother", and(st.guard, not(or(matched...))))
+	if spec == nil {
+		fx.oblige("nil", fr.path+"/dispatch/known_dynamic_type#", rest, "false", pos, "no contract for "+key)
+	} else {
+		r := fr.callIfaceSpec(spec, key, iname, recv, m, args, rest, pos)
+		outs = append(outs, edgeState{cond: rest.guard, st: rest})
+		results = append(results, r)
+		conds = append(conds, rest.guard)
+	}
+	mst := fx.merge("invoke", outs)
+	*st = *mst
+	if results[0] == nil {
+		return nil
+	}
+	var vs []Val
+	for _, r := range results {
+		vs = append(vs, *r)
+	}
+	mv := fx.mergeVals("invoke", conds, vs)
+	return &mv
+}
+
+func typeInModule(t types.Type) bool {
+	if p, ok := t.(*types.Pointer); ok {
+		t = p.Elem()
+	}
+	n, ok := t.(*types.Named)
+	if !ok || n.Obj().Pkg() == nil {
+		return false
+	}
+	return strings.HasPrefix(n.Obj().Pkg().Path(), modulePrefix)
 }
 
 func (fr *Frame) callIfaceSpec(spec *FuncSpec, key string, iname string, recv Val, m *types.Func, args []Val, st *State, pos token.Pos) *Val {
@@ -1105,5 +1189,37 @@ func (fr *Frame) execLookup(x *ssa.Lookup, st *State) {
 
 // intrinsic handles a few library functions natively.
 func (fr *Frame) intrinsic(key string, callee *ssa.Function, args []Val, st *State, pos token.Pos) (*Val, bool) {
+	fx := fr.fx
+	switch key {
+	case "errors.As":
+		// errors.As(err, target): target is a non-nil pointer; on success the
+		// pointee is set to a non-nil value, otherwise it is left alone.
+		if len(args) != 2 {
+			return nil, false
+		}
+		tgt := args[1]
+		id, ok := isNumLit(tgt.ifTyp())
+		if !ok || id <= 0 || int(id) > len(fx.eng.tids.typs) {
+			unsupp("errors.As with a target of unknown static type")
+		}
+		pt, isPtr := fx.eng.tids.typs[id-1].(*types.Pointer)
+		if !isPtr {
+			unsupp("errors.As target is not a pointer")
+		}
+		fx.oblige("panic", fr.path+"/panic/errors.As_target_nil#", st, not(eq(tgt.ifBox(), "0")), pos, "errors.As panics on a nil target")
+		esh := shapeOf(pt.Elem())
+		okv := fx.decls.Fresh("as_ok", sBool)
+		old := fx.loadObj(st, esh, tgt.ifBox())
+		nv := freshVal(fx.decls, esh, "as_target")
+		fx.assume(st.guard, typeInvariant(nv))
+		fx.assumeRefsBelow(st, nv)
+		fx.assume(st.guard, imp(okv, not(eq(nv.ts[0], "0"))))
+		fx.assume(st.guard, imp(eq(args[0].ifTyp(), "0"), not(okv)))
+		merged := iteVal(okv, nv, old)
+		fx.storeObjComps(st, esh, tgt.ifBox(), 0, merged.ts)
+		fx.noteAssumption("errors.As: on success the target receives a non-nil value of its type; otherwise it is unchanged")
+		out := mkBool(shapeOf(types.Typ[types.Bool]), okv)
+		return &out, true
+	}
 	return nil, false
 }
